@@ -44,6 +44,23 @@ def index_terms(LIST, formulas, extra=()):
     return out
 
 
+def partition_hyps_imp(L, S, E, MAX, idxs):
+    """instances of the CharPartition invariant as ('imp', antecedent, consequent) pairs; ordering facts only for
+    index terms whose difference is a syntactic constant"""
+    hyps = []
+    for k in idxs:
+        hyps.append(('imp', lt(k, L), AND(le(S(k), E(k)), le(E(k), I(MAX)))))
+    for k1 in idxs:
+        for k2 in idxs:
+            if k1 == k2:
+                continue
+            d, c = T.linearize(T.mk_sub(k2, k1))
+            if d or c <= 0:
+                continue
+            hyps.append(('imp', lt(k2, L), lt(E(k1), S(k2))))
+    return hyps
+
+
 def partition_hyps(L, S, E, MAX, idxs):
     """instances of the CharPartition invariant on the given index terms"""
     hyps = []
